@@ -270,6 +270,7 @@ func emitKeyring(w *gal.Writer, class string, c *canary, element string, err err
 	term := fmt.Sprintf("(CKeyring {| y_base := %s; y_roots := %s; y_element := %s; y_changed := %s |})",
 		gal.Str(T+"/root"), rootsTerm, gal.Str(el), gal.StrList(changed))
 	w.Add(gal.Case{Term: term, Desc: desc, Class: class, Trivial: false})
+	clock(class)
 }
 
 func keyringOn(c *canary, f apkfs.FullFS, element string, cache bool) (err error) {
@@ -514,6 +515,7 @@ func runMemberCase(w *gal.Writer, datahash string, plant bool, fresh bool) {
 	term := fmt.Sprintf("(CMember {| m_cachedir := %s; m_roots := %s; m_datahash := %s; m_dat_exists := %s; m_tar_created := %s; m_fresh := %s; m_changed := %s |})",
 		gal.Str(c.abstract(cacheDir)), rootsTerm, gal.Str(datahash), gal.Bool(datExists && !fresh), gal.Bool(tarCreated), freshTerm, gal.StrList(changed))
 	w.Add(gal.Case{Term: term, Desc: desc, Class: class, Trivial: false})
+	clock(class)
 }
 
 func stageCanary2(w *gal.Writer, r *gal.Rand) {
@@ -543,17 +545,23 @@ func stageCanary2(w *gal.Writer, r *gal.Rand) {
 		}
 	}
 	// packages of several hostile entries
-	for i := 0; i < scale(12, 200); i++ {
+	for i := 0; i < scale(12, 400); i++ {
 		es := randomEntries(r)
 		runPipelineCase(w, "pipeline", gal.Pick(r, []string{"dirfs", "dirfs", "tarfs", "memfs"}), es, r.Bool(), false)
 	}
 
 	// -- key locations ---------------------------------------------------------------------
-	etags := [][]string{{`"abc"`}, nil, {`"../../../../../c18-etag"`}, {"..%2F..%2F..%2Fc18-etag"}, {`W/"..\..\c18-etag"`}}
+	etags := [][]string{{`"abc"`}, nil, {`"../../../../../c18-etag"`}, {"..%2F..%2F..%2Fc18-etag"}, {`W/"..\..\c18-etag"`},
+		{"/abs/c18-etag"}, {`"a"`, `"../../../../c18-second"`}, {"..", "."}, {long300 + "/../../../../c18-etag"}, {`"%2e%2e%2f%2e%2e%2fc18-etag"`}}
+	// (a header value with a NUL is not something an HTTP server can send: the canned-transport cases above carry that one)
 	for i, seg := range keySegments {
 		runKeyURLCase(w, seg, etags[i%len(etags)], false)
-		runKeyURLCase(w, seg, etags[(i+1)%len(etags)], true)
 		runKeyFileCase(w, seg)
+		for j, et := range etags {
+			if thorough() || j == (i+1)%len(etags) {
+				runKeyURLCase(w, seg, et, true)
+			}
+		}
 	}
 	// -- package and index URLs through the disk cache -------------------------------------
 	for i, t := range urlTails {
